@@ -62,6 +62,7 @@ def eval_case(case, prims, raw=False):
         return {"skip": True, "input_error": f"{type(ex).__name__}: {ex}"}
     env = dict(inp.__dict__)
     out = {"skip": False}
+    ex_obj = None
     try:
         g = dict(_module_globals(case))
         g.update(env)  # one namespace: lambdas inside the call expression must see the inputs
@@ -71,6 +72,7 @@ def eval_case(case, prims, raw=False):
         outcome = "return"
     except Exception as ex:
         r = None
+        ex_obj = ex
         outcome = "raise:" + type(ex).__name__
         out["message"] = str(ex)[:300]
     out["outcome"] = outcome
@@ -107,6 +109,8 @@ def eval_case(case, prims, raw=False):
         raised = outcome == "raise:" + exc
         listed = listed or raised
         checks["raises:" + exc] = (cond == raised)
+    if not listed and outcome != "return" and getattr(case, "may_raise", ()):
+        listed = any(k.__name__ in case.may_raise for k in type(ex_obj).__mro__) if ex_obj is not None else False
     checks["no-other-exception"] = outcome == "return" or listed
     out["checks"] = checks
     return out
